@@ -68,6 +68,8 @@ def batch(prop, tier, sd):
                                       zero_in_async=rng.choice([0, 0, 1, 2, 3])))
         for i in range(25 if quick else 150):
             out.append(ds.tree_decl(rng, 't%04d' % i, n=rng.randint(4, 7)))
+        for i in range(4 if quick else 24):
+            out.append(ds.wide_decl(rng, 'w%04d' % i, width=rng.randint(9, 13), sync_root=(i % 3 != 2)))
         if prop == 'C02':
             base = [d for d in out if d['id'].startswith('r')][: (10 if quick else 60)]
             for d in base:
@@ -114,6 +116,8 @@ def batch(prop, tier, sd):
     else:  # C06, C07, C08: fault modes
         for i in range(12 if quick else 100):
             out.append(ds.sources_decl(rng, 's%04d' % i, p_fallible=0.6))
+        for i in range(2 if quick else 12):
+            out.append(ds.wide_decl(rng, 'w%04d' % i, width=rng.randint(9, 12), p_fallible=0.3, sync_root=(i % 2 == 0)))
         ex = ds.exhaustive_small(3, with_fallible=False)
         ex = [d for d in ex if any(p['async'] for p in d['providers'])]
         pick = rng.sample(ex, 24 if quick else len(ex))
@@ -415,8 +419,12 @@ def run(prop, tier, sd, rep, clauses, modes):
                     rep.problem('driver of %s (GOMAXPROCS=%s) exited with %s: %s' % (i, g, r_['rc'], msg[-1500:]))
 
             # ---- B1: exhaustive interleavings of the extracted programs ------------------------------------------
-            mdecls = [byid[i] for i in ok]
-            mprogs = [progs[i] for i in ok]
+            # programs with many goroutines are left to the real executions (InjectorReq): their interleavings are beyond
+            # exhaustive exploration
+            wide = [i for i in ok if len(progs[i].get('threads', [])) > 6]
+            agg['too_wide_for_tlc'] = agg.get('too_wide_for_tlc', 0) + len(wide)
+            mdecls = [byid[i] for i in ok if i not in wide]
+            mprogs = [progs[i] for i in ok if i not in wide]
             unmodelled = {p['decl']: p['unmodelled'] for p in mprogs if p['unmodelled']}
             flags, mstates, mtrans, _ = wb.model_check(w, mdecls, mprogs, modes='none' if modes == 'none' else None, name='mc%d' % sk)
             # white-box conformance: real executions must be behaviours of the extracted programs (InjectorTrace.tla)
@@ -614,7 +622,7 @@ def run(prop, tier, sd, rep, clauses, modes):
             'declarations_with_goroutines': agg['nontrivial'],
             'generator_refused': sorted(agg['gen_fail'])[:20], 'not_compiling_skipped': sorted(agg['comp_fail'])[:20],
             'driver_not_generated': sorted(agg['dg_fail'])[:20],
-            'programs_model_checked': agg['nmodelled'], 'programs_unmodelled': agg['unmodelled'],
+            'programs_model_checked': agg['nmodelled'], 'programs_unmodelled': agg['unmodelled'], 'programs_too_wide_for_exhaustive_interleaving': agg.get('too_wide_for_tlc', 0),
             'real_executions_explained_by_extracted_program': agg['wt_ok'], 'whitebox_trace_states': agg['wt_states'],
             'model_states_distinct': agg['mstates'], 'model_transitions': agg['mtrans'],
             'trace_events_validated': agg['nlines'], 'real_executions': agg['nexec'],
